@@ -7,6 +7,8 @@ import (
 	"strings"
 )
 
+var extraDumps = map[string]func(t *Tree, name string){}
+
 // cmdDump prints internal tables for debugging and for writing reference files.
 func cmdDump(args []string) int {
 	fs := flag.NewFlagSet("dump", flag.ExitOnError)
@@ -17,6 +19,10 @@ func cmdDump(args []string) int {
 	if err != nil {
 		fmt.Fprintln(os.Stderr, err)
 		return 2
+	}
+	if f, ok := extraDumps[*what]; ok {
+		f(t, *name)
+		return 0
 	}
 	switch *what {
 	case "ctors":
@@ -73,4 +79,29 @@ func cmdDump(args []string) int {
 		}
 	}
 	return 0
+}
+
+func init() {
+	extraDumps["rejects"] = func(t *Tree, name string) {
+		parts := strings.SplitN(name, ":", 2)
+		for pp := range t.SSA {
+			if !strings.HasSuffix(pp, parts[0]) {
+				continue
+			}
+			for _, f := range t.PkgFuncs(pp) {
+				if f.Name() == parts[1] {
+					for _, s := range rejectSites(f) {
+						fmt.Println(t.Pos(s.ret.Pos()))
+						for _, ec := range controlling(s.ret.Block()) {
+							other := ec.If.Succs[1]
+							if !ec.Pol {
+								other = ec.If.Succs[0]
+							}
+							fmt.Printf("    %-70s otherRejects=%v\n", condDesc(ec), rejecting(other))
+						}
+					}
+				}
+			}
+		}
+	}
 }
